@@ -10,6 +10,7 @@ import (
 	"os"
 	"os/exec"
 	"path/filepath"
+	"runtime/debug"
 	"sort"
 	"strings"
 	"sync"
@@ -250,6 +251,7 @@ func goEnv() []string {
 
 // Worker is the entry point of "vcheck worker job.json result.json".
 func Worker(jobFile, resFile string) {
+	debug.SetGCPercent(400) // memory is plentiful; the interpreter allocates many short-lived values
 	data, err := os.ReadFile(jobFile)
 	if err != nil {
 		fmt.Fprintln(os.Stderr, err)
